@@ -1,5 +1,12 @@
-(* C08 — Batcher: bounded size, bounded staleness, in-order commit. Statements only. *)
+(* C08 — Batcher: bounded size, bounded staleness, in-order commit. Statements only; proofs in
+   Proofs/Batcher.v.  Every theorem quantifies over every configuration [c] (with the hypotheses
+   written in the statement) and every label sequence [ls] the LTS of Model/Batcher.v admits from
+   [init c], i.e. over every interleaving of adders, heartbeat, workers and Stop.
+   History variables are stored newest-first, hence the [rev]s. *)
 From Verif Require Import Base.Sx Model.Batcher Proofs.Batcher Gen.BatcherGen.
+From Coq Require Import List ZArith.
+Import ListNotations.
+Local Open Scope Z_scope.
 
 (* the induction principle every theorem below instantiates: an invariant of [step] holds after any
    label sequence the batcher LTS admits, i.e. for every interleaving *)
@@ -9,3 +16,168 @@ Theorem c08_reachable_invariant :
     forall ls s s', P s -> run c s ls = Some s' -> P s'.
 Proof. exact run_invariant. Qed.
 Print Assumptions c08_reachable_invariant.
+
+(* ---- 1. size bounds ------------------------------------------------------------------------ *)
+(* not_size_ready c l := (maxCount c = 0 \/ |l| < maxCount c) /\ (maxBytes c = 0 \/ bytes_of l < maxBytes c)
+   batch_ok c b       := b <> [] /\ (not_size_ready c b \/ exists b0 e, b = b0 ++ [e] /\ not_size_ready c b0)
+   Negative limits are excluded: with maxCount c < 0 updateStatus reports every batch ready. *)
+Theorem c08_batch_bounds :
+  forall c ls s, 0 <= maxCount c -> 0 <= maxBytes c -> run c (init c) ls = Some s ->
+    forall b, In b (sealed_hist s) ->
+      b <> [] /\
+      (not_size_ready c b \/ exists b0 e, b = b0 ++ [e] /\ not_size_ready c b0).
+Proof. exact batch_bounds. Qed.
+Print Assumptions c08_batch_bounds.
+
+Theorem c08_batch_count_le :
+  forall c ls s, 0 < maxCount c -> 0 <= maxBytes c -> run c (init c) ls = Some s ->
+    forall b, In b (sealed_hist s) -> 0 < Z.of_nat (length b) <= maxCount c.
+Proof. exact batch_bounds_count. Qed.
+Print Assumptions c08_batch_count_le.
+
+(* the byte limit is exceeded by at most the last event *)
+Theorem c08_batch_bytes_lt_plus_last :
+  forall c ls s, 0 <= maxCount c -> 0 < maxBytes c -> run c (init c) ls = Some s ->
+    forall b, In b (sealed_hist s) ->
+      bytes_of b < maxBytes c \/ exists b0 e, b = b0 ++ [e] /\ bytes_of b0 < maxBytes c.
+Proof. exact batch_bounds_bytes. Qed.
+Print Assumptions c08_batch_bytes_lt_plus_last.
+
+(* ---- 2. commit sections are entered in formation order, each sequence number once ----------- *)
+Theorem c08_commit_in_seq_order :
+  forall c ls s, run c (init c) ls = Some s ->
+    0 <= commitSeq s /\
+    rev (commit_batches s) = map Z.of_nat (seq 0 (Z.to_nat (commitSeq s))).
+Proof. exact commit_in_seq_order. Qed.
+Print Assumptions c08_commit_in_seq_order.
+
+Theorem c08_commit_each_once :
+  forall c ls s, run c (init c) ls = Some s -> NoDup (commit_batches s).
+Proof. exact commit_each_once. Qed.
+Print Assumptions c08_commit_each_once.
+
+(* ---- 3. a batch with an iterable event is committed only after its own OutFn returned ------- *)
+Theorem c08_commit_after_own_send :
+  forall c ls s, run c (init c) ls = Some s ->
+    forall q evs, In q (commit_batches s) ->
+      nth_error (rev (sealed_hist s)) (Z.to_nat q) = Some evs ->
+      has_iter evs = true -> In q (sent_hist s).
+Proof. exact commit_after_own_send. Qed.
+Print Assumptions c08_commit_after_own_send.
+
+(* the hypothesis of the previous theorem is never vacuous for a committed sequence number *)
+Theorem c08_commit_batches_are_sealed :
+  forall c ls s, run c (init c) ls = Some s ->
+    forall q, In q (commit_batches s) -> exists evs, nth_error (rev (sealed_hist s)) (Z.to_nat q) = Some evs.
+Proof. exact commit_batches_sealed. Qed.
+Print Assumptions c08_commit_batches_are_sealed.
+
+(* ---- 4. conservation on the input side ------------------------------------------------------ *)
+(* cur_list s = the current batch (newest first), [] when there is none *)
+Theorem c08_added_is_sealed_plus_current :
+  forall c ls s, run c (init c) ls = Some s ->
+    rev (added s) = concat (rev (sealed_hist s)) ++ rev (cur_list s).
+Proof. exact added_is_sealed_plus_current. Qed.
+Print Assumptions c08_added_is_sealed_plus_current.
+
+(* ---- 5. conservation on the output side (no batch is ever emptied: plain OutFn, or no dead queue) *)
+(* lo_seq s = commitSeq s, or commitSeq s - 1 while a batch is inside its commit section
+   (see c08_lo_seq_cases): the number of batches whose commit section is over *)
+Theorem c08_committed_shape :
+  forall c ls s, (retriable c = false \/ deadq c = false) -> run c (init c) ls = Some s ->
+    exists j,
+      rev (committed s) =
+        concat (firstn (Z.to_nat (lo_seq s)) (rev (sealed_hist s))) ++
+        firstn j (nth (Z.to_nat (lo_seq s)) (rev (sealed_hist s)) []).
+Proof. exact committed_shape_plain. Qed.
+Print Assumptions c08_committed_shape.
+
+Theorem c08_committed_prefix_of_added :
+  forall c ls s, (retriable c = false \/ deadq c = false) -> run c (init c) ls = Some s ->
+    exists rest, rev (added s) = rev (committed s) ++ rest.
+Proof. exact committed_prefix_of_added. Qed.
+Print Assumptions c08_committed_prefix_of_added.
+
+Theorem c08_exactly_once_at_quiescence :
+  forall c ls s, (retriable c = false \/ deadq c = false) -> run c (init c) ls = Some s ->
+    flight s = [] -> cur_list s = [] -> rev (committed s) = rev (added s).
+Proof. exact exactly_once_at_quiescence. Qed.
+Print Assumptions c08_exactly_once_at_quiescence.
+
+(* ---- 6. the batches in flight are exactly the interval [lo_seq, outSeq) ---------------------- *)
+Theorem c08_lo_seq_cases :
+  forall s,
+    (committing_bat (flight s) = None /\ lo_seq s = commitSeq s) \/
+    (exists b, committing_bat (flight s) = Some b /\ lo_seq s = commitSeq s - 1).
+Proof. exact lo_seq_cases. Qed.
+Print Assumptions c08_lo_seq_cases.
+
+(* zrange lo n = [lo; lo+1; ...; lo+n-1];  cur_count s = 1 if a current batch exists, else 0 *)
+Theorem c08_in_flight_is_interval :
+  forall c ls s, run c (init c) ls = Some s ->
+    0 <= lo_seq s <= outSeq s /\
+    map bseq (flight s) = zrange (lo_seq s) (Z.to_nat (outSeq s - lo_seq s)) /\
+    NoDup (map bseq (flight s)) /\
+    free s + Z.of_nat (length (flight s)) + cur_count s = workers c.
+Proof. exact in_flight_is_interval. Qed.
+Print Assumptions c08_in_flight_is_interval.
+
+(* the batch every waiting worker waits for exists and is not yet in its commit section *)
+Theorem c08_no_commit_deadlock :
+  forall c ls s, run c (init c) ls = Some s -> commitSeq s < outSeq s ->
+    exists b, find_bat (flight s) (commitSeq s) = Some b /\ In b (flight s) /\ committing b = false.
+Proof. exact no_commit_deadlock. Qed.
+Print Assumptions c08_no_commit_deadlock.
+
+(* ---- 7. Stop never panics -------------------------------------------------------------------- *)
+(* [batcher_atomic_push] is regenerated from the Go AST on every run: this theorem stops compiling
+   when the channel send is moved back outside the critical section *)
+Theorem c08_stop_never_panics :
+  forall c ls s, atomic_push c = batcher_atomic_push -> run c (init c) ls = Some s -> crashed s = false.
+Proof. exact stop_never_panics. Qed.
+Print Assumptions c08_stop_never_panics.
+
+(* the unrepaired code: Seal, Unlock, Stop closes the channel, send on the closed channel *)
+Theorem c08_stop_panics_without_atomic_push_refuted :
+  exists c ls s, atomic_push c = false /\ run c (init c) ls = Some s /\ crashed s = true.
+Proof. exact stop_panics_without_atomic_push. Qed.
+Print Assumptions c08_stop_panics_without_atomic_push_refuted.
+
+Theorem c08_stop_no_unsent_commit :
+  forall c ls s, run c (init c) ls = Some s -> stopped s = true ->
+    forall q evs, In q (commit_batches s) ->
+      nth_error (rev (sealed_hist s)) (Z.to_nat q) = Some evs ->
+      has_iter evs = true -> In q (sent_hist s).
+Proof. exact stop_no_unsent_commit. Qed.
+Print Assumptions c08_stop_no_unsent_commit.
+
+(* ---- 8. bounded staleness in ticks ----------------------------------------------------------- *)
+(* a decision (Add or heartbeat tick) that sees a non-empty batch older than the flush timeout cannot
+   answer NotReady: the batch is sealed by the first tick after its age exceeds the timeout *)
+Theorem c08_idle_flush_decision :
+  forall c s n b el tmo s', step c s (LNotReady n b el tmo) = Some s' -> n <> 0 -> el <= tmo.
+Proof. exact idle_flush_decision. Qed.
+Print Assumptions c08_idle_flush_decision.
+
+(* ---- non-vacuity ----------------------------------------------------------------------------- *)
+Definition nv_cfg : cfg :=
+  {| workers := 2; maxCount := 1; maxBytes := 0; retriable := false; retry := 0; deadq := false;
+     atomic_push := batcher_atomic_push |}.
+Definition nv_e1 : ev := {| eid := 1; esrc := 0; esize := 5; ekind := 0 |}.
+Definition nv_e2 : ev := {| eid := 2; esrc := 0; esize := 7; ekind := 0 |}.
+(* two workers, two batches; OutFn of batch 1 returns before OutFn of batch 0 *)
+Definition nv_prefix : list label :=
+  [LFree; LAdd nv_e1; LSeal 0 1 1 5; LPush 0; LFree; LAdd nv_e2; LSeal 1 1 1 7; LPush 1;
+   LTake 0; LTake 1; LOutBegin 0 1; LOutBegin 1 1; LOutSaw 1 [2]; LOutEnd 1 1 1].
+Definition nv_rest : list label :=
+  [LOutSaw 0 [1]; LOutEnd 0 1 1; LCommitBegin 0 1; LCommitEv nv_e1; LCommitEnd 0 1;
+   LCommitBegin 1 1; LCommitEv nv_e2; LCommitEnd 1 1; LStop].
+
+Example c08_nonvacuous :
+  (* batch 1 is sent but must wait: its commit section is not enabled *)
+  run nv_cfg (init nv_cfg) (nv_prefix ++ [LCommitBegin 1 1]) = None /\
+  exists s, run nv_cfg (init nv_cfg) (nv_prefix ++ nv_rest) = Some s /\
+            rev (sent_hist s) = [1; 0] /\ rev (commit_batches s) = [0; 1] /\
+            rev (committed s) = [nv_e1; nv_e2] /\ rev (added s) = [nv_e1; nv_e2] /\
+            flight s = [] /\ free s = 2 /\ crashed s = false.
+Proof. split; [vm_compute; reflexivity|]. eexists. vm_compute. repeat split; reflexivity. Qed.
